@@ -22,8 +22,45 @@ BOOK = {'PCs', 'Phases', 'ActPC', 'pPhaseStacks', 'PCsUsed'}
 CORE_UNITS = {'as.c', 'asmallg.c', 'asmcode.c', 'asmdef.c'}
 
 
+def rule_struct_segment(chk, facts):
+    chk.rule('C10-R9', 'CodeSTRUCT(): opening a STRUCT/UNION initialises only the struct pseudo segment - every store to '
+             'PCs[], Phases[], Grans[], ListGrans[] is indexed with StructSeg (the enumerator itself, or ActPC on paths '
+             'that have already assigned ActPC = StructSeg): the counter and the PHASE offset of the segment the '
+             'definition stands in are not touched', min_instances=3)
+    f = facts.func('asmallg.c', 'CodeSTRUCT')
+    sseg = f.unit.enums.get('StructSeg')
+    if sseg is None:
+        raise AnalysisBroken('enumerator StructSeg not found')
+
+    def sets_actpc(ex):
+        return any(is_assign(m) and m[1] == '=' and strip(m[2]) == ('g', 'ActPC') and const_val(m[3]) == int(sseg)
+                   for m in walk_own(ex))
+    n = 0
+    for b, i, ln, m in f.nodes():
+        if not (is_assign(m) or is_incdec(m)):
+            continue
+        t = strip(m[2])
+        if t[0] == 'i' and strip(t[1])[0] == 'g' and strip(t[1])[1] in ('PCs', 'Phases', 'Grans', 'ListGrans'):
+            n += 1
+            idx = nocast(t[2])
+            if const_val(idx) is not None:
+                ok = const_val(idx) == int(sseg)
+            elif idx == ('g', 'ActPC'):
+                ok = f.guarded(b, i, lambda l: False, sets_actpc)[0]
+            else:
+                ok = False
+            chk.ob('C10-R9', 'asmallg.c:CodeSTRUCT:%s[%s]' % (strip(t[1])[1], show(idx)), ok, f.loc(ln),
+                   'indexes the struct segment' if ok else
+                   '%s[%s] is written while %s does not yet denote the struct segment: the enclosing segment\'s %s is '
+                   'overwritten (labels after ENDSTRUCT lose the PHASE offset / the counter)' %
+                   (strip(t[1])[1], show(idx), show(idx), strip(t[1])[1]))
+    if n < 3:
+        raise AnalysisBroken('CodeSTRUCT: bookkeeping stores not found')
+
+
 def run(chk, facts, info):
     P = facts.program('asl')
+    rule_struct_segment(chk, facts)
     chk.rule('C10-R8', 'logical (PHASE-adjusted, EProgCounter()) and physical (ProgCounter()) addresses are never compared, '
              'subtracted or assigned across: a global assigned only from one kind is compared only with that kind',
              min_instances=2)
